@@ -225,7 +225,9 @@ class Solver(ABC):
 
         initial_values = self._unbatch_results(padded_batched_initial_values)
 
-        return initial_values
+        # Problem.initial_value may return integers (or a lower precision); value
+        # estimates are always held in the solver's floating-point precision
+        return initial_values.astype(jnp.result_type(float))
 
     def _calculate_initial_value_state_batch(
         self, carry, state_batch: StateBatch
